@@ -1,13 +1,15 @@
 """A mask of the low `n mod W` bits needs the case n mod W == 0.
 
-`~(~0 << (n % W))` is the mask of the bits of the last word that belong to an n-bit vector -- except when n is a multiple of the
-word size: then the shift count is 0, the mask is empty, and whatever is computed under it ignores the whole last word.  (The
-single-bit form `1 << (i % W)` has no such case.)  bitvEqual tests `nbits % BpW == 0` first and compares the full word.  A copy
-of the idiom without that test stops a fixpoint iteration early whenever a flow graph has exactly 128, 192, ... variables and
-the change is in the last word: live assignments are deleted and the optimised program computes something else.
+`~(~0 << (n % W))` (or `(1 << (n % W)) - 1`) is the mask of the bits of the last word that belong to an n-bit vector -- except
+when n is a multiple of the word size: then the shift count is 0, the mask is empty, and whatever is computed under it ignores
+the whole last word, all of which is significant.  (The single-bit form `1 << (i % W)` has no such case.)  bitvEqual tests
+`nbits % BpW == 0` first and compares the full word.  A copy of the idiom without that test stops a fixpoint iteration early
+whenever a flow graph has exactly 128, 192, ... variables and the change is in the last word: live assignments are deleted
+and the optimised program computes something else.
 
-Instances: every shift `ALLONES << (E % W)` of the units given.  Rule: on the way to it, `E % W` has been tested against zero
-(an enclosing condition, a conditional expression, or an earlier `if (E % W == 0) <leave>` in an enclosing block).
+Instances: every low-bits mask of the units given whose count is `E % W`, directly or through a local assigned once from such
+an expression.  Rule: the mask is unreachable for a zero remainder -- an earlier `if (<remainder> == 0) <leave>` in an
+enclosing block, an enclosing `if`/conditional on the remainder with the mask on the non-zero side.
 """
 from . import common
 from .common import walk, strip, render, const_value
@@ -19,73 +21,118 @@ def _is_allones(e):
     e = strip(e)
     if e is None:
         return False
-    v = const_value(e)
-    if v in ALLONES:
+    if const_value(e) in ALLONES:
         return True
     if e["k"] == "UnaryOperator" and e["op"] == "~":
         return const_value(e["c"][0]) == 0
     return False
 
 
+def masks(body):
+    """(mask node, set of renderings that stand for its count) for every low-bits mask whose count is a remainder"""
+    single = {}
+    for x in walk(body):
+        if x["k"] == "DeclStmt":
+            for d in x.get("decls", []):
+                if d.get("init") is not None:
+                    single.setdefault(d["n"], []).append(d["init"])
+        elif x["k"] == "BinaryOperator" and x["op"] == "=":
+            l = strip(x["c"][0])
+            if l is not None and l["k"] == "DeclRefExpr":
+                single.setdefault(l["n"], []).append(x["c"][1])
+        elif x["k"] in ("CompoundAssignOperator", "UnaryOperator") and x.get("op") in ("++", "--", "post++", "post--", "+=", "-=", "&"):
+            l = strip(x["c"][0])
+            if l is not None and l["k"] == "DeclRefExpr":
+                single.setdefault(l["n"], []).extend([None, None])
+    for x in walk(body):
+        k = None
+        if x["k"] == "UnaryOperator" and x["op"] == "~":
+            sh = strip(x["c"][0])
+            if sh is not None and sh["k"] == "BinaryOperator" and sh["op"] == "<<" and _is_allones(sh["c"][0]):
+                k = strip(sh["c"][1])
+        elif x["k"] == "BinaryOperator" and x["op"] == "-" and const_value(x["c"][1]) == 1:
+            sh = strip(x["c"][0])
+            if sh is not None and sh["k"] == "BinaryOperator" and sh["op"] == "<<" and const_value(sh["c"][0]) == 1:
+                k = strip(sh["c"][1])
+        if k is None:
+            continue
+        names = set()
+        if k["k"] == "DeclRefExpr" and len(single.get(k["n"], [])) == 1 and single[k["n"]][0] is not None:
+            names.add(k["n"])
+            k = strip(single[k["n"]][0])
+        if k is not None and k["k"] == "BinaryOperator" and k["op"] == "%" and const_value(k) is None:
+            names.add(render(k))
+            yield x, names, render(k)
+
+
+def guarded(m, names, par):
+    def tests_zero(c):
+        for y in walk(c):
+            if y["k"] == "BinaryOperator" and y["op"] in ("==", "!=") and const_value(y["c"][1]) == 0 and render(strip(y["c"][0])) in names:
+                return y["op"]
+            if y["k"] == "UnaryOperator" and y["op"] == "!" and render(strip(y["c"][0])) in names:
+                return "=="
+        s = strip(c)
+        if s is not None and render(s) in names:
+            return "!="                      # `if (rem)`: the truth value of the remainder
+        return None
+    cur = m
+    while cur["id"] in par:
+        p_ = par[cur["id"]]
+        if p_["k"] == "CompoundStmt":
+            for st in p_["c"]:
+                if st is None:
+                    continue
+                if st is cur or any(y is cur for y in walk(st)):
+                    break
+                if st["k"] == "IfStmt" and tests_zero(st["c"][0]) == "==" and common.ends_flow(st["c"][1]):
+                    return True
+        if p_["k"] == "IfStmt":
+            op = tests_zero(p_["c"][0])
+            in_then = any(y is cur for y in walk(p_["c"][1]))
+            in_else = len(p_["c"]) > 2 and p_["c"][2] is not None and any(y is cur for y in walk(p_["c"][2]))
+            if (op == "!=" and in_then) or (op == "==" and in_else):
+                return True
+        if p_["k"] == "ConditionalOperator":
+            op = tests_zero(p_["c"][0])
+            if (op == "!=" and any(y is cur for y in walk(p_["c"][1]))) or (op == "==" and any(y is cur for y in walk(p_["c"][2]))):
+                return True
+        cur = p_
+    return False
+
+
 def digest(f):
     base = f.unit.split("/")[-1]
     out = []
-    for name, fn in f.funcs.items():
+    for name, fn in sorted(f.funcs.items(), key=lambda kv: kv[1].get("l", 0)):
         if "body" not in fn or not fn.get("file", "").endswith(base):
             continue
-        sites = []
-        for x in walk(fn["body"]):
-            if x["k"] == "BinaryOperator" and x["op"] == "<<" and _is_allones(x["c"][0]):
-                cnt = strip(x["c"][1])
-                if cnt is not None and cnt["k"] == "BinaryOperator" and cnt["op"] == "%" and const_value(cnt) is None:
-                    sites.append((x, render(cnt)))
-        if not sites:
-            continue
-        par = common.parents(fn["body"])
-        # a local holding the remainder stands for it
-        for x, rem in sites:
-            def tests_rem(cond):
-                for y in walk(cond):
-                    if y["k"] == "BinaryOperator" and y["op"] == "%" and render(y) == rem:
-                        return True
-                return False
-            guarded = False
-            cur = x
-            while cur["id"] in par and not guarded:
-                p_ = par[cur["id"]]
-                if p_["k"] in ("IfStmt", "ConditionalOperator") and p_["c"][0] is not cur and tests_rem(p_["c"][0]) and \
-                        not any(y is cur for y in walk(p_["c"][0])):
-                    guarded = True
-                elif p_["k"] == "BinaryOperator" and p_["op"] in ("&&", "||") and p_["c"][1] is cur and tests_rem(p_["c"][0]):
-                    guarded = True
-                elif p_["k"] == "CompoundStmt":
-                    for st in p_["c"]:
-                        if st is cur or any(y is cur for y in walk(st)):
-                            break
-                        if st["k"] == "IfStmt" and tests_rem(st["c"][0]) and common.ends_flow(st["c"][1]):
-                            guarded = True
-                cur = p_
-            out.append((name, x["l"], rem, guarded))
+        par = None
+        for m, names, rem in masks(fn["body"]):
+            if par is None:
+                par = common.parents(fn["body"])
+            out.append((name, m["l"], render(m)[:60], rem, guarded(m, names, par)))
     return out
 
 
-def report(rep, rule, units=None, floor=1):
+def report(rep, rule, units=None, floor=1, key="low-bits-mask-has-zero-case", with_unit=True):
     units = units or common.compiler_units()
-    dig = common.map_units(units, digest, "compiler", all_trees=True)
+    dig = common.map_units(list(units), digest, "compiler", all_trees=True)
     n = 0
     for u in sorted(dig):
         base = u.split("/")[-1]
-        for fn, line, rem, guarded in dig[u]:
+        for fn, line, mask, rem, ok in dig[u]:
             n += 1
-            key = "low-bits-mask-has-zero-case:%s:%s" % (base, fn)
-            if guarded:
-                rep.ok(rule, key + "@%d" % line, sample={"remainder": rem})
+            k_ = "%s:%s:%s" % (key, base, fn) if with_unit else "%s:%s" % (key, fn)
+            if ok:
+                rep.ok(rule, k_ + "@%d" % line, sample={"mask": mask, "count": rem})
             else:
-                rep.violation(rule, key, "%s:%d (%s)" % (base, line, fn),
-                              "the mask of the low `%s` bits is built without the case where that remainder is 0: the shift count "
-                              "is then 0 and the mask is empty, so for a vector whose size is a multiple of the word size the whole "
-                              "last word is ignored.  In the data-flow iteration this ends the fixpoint early for a function with "
-                              "exactly 128, 192, ... variables: live assignments are removed and the optimised program differs "
-                              "from the unoptimised one" % rem)
+                rep.violation(rule, k_, "%s:%d (%s)" % (base, line, fn),
+                              "`%s` is the mask of the low (%s) bits of the last word; when the vector length is a multiple of the "
+                              "word size the count is 0 and the mask is empty, so the whole last word -- all of it significant -- "
+                              "is ignored.  No test of that remainder against 0 precedes or encloses the mask in %s.  (In the "
+                              "data-flow iteration this ends the fixpoint early for a function with exactly 128, 192, ... "
+                              "variables: live assignments are removed and the optimised program differs from the unoptimised one)"
+                              % (mask, rem, fn))
     rep.floor("low-bits masks built from a remainder", n, floor)
     return n
